@@ -61,7 +61,7 @@ import Thanos.Model.Rewrite
     rw.block <series> <requests>                        -> <series> | -        (the rewritten block; through real blocks)
     rw.mod   <series> <requests>                        -> <series> | -        (the same through the in-memory series set)
       series   = s{|s} | -          s = labels/chunk{/chunk}     labels = hexname=hexvalue{+…} | -
-      chunk    = t.v{,t.v}          (integers; t increasing)
+      chunk    = [h]t.v{,t.v}       (integers; t increasing; h = a native histogram chunk, v stands for the histogram)
       requests = r{;r} | -          r = matchers/intervals
       matchers = m{,m} | e          m as in C45 (hexname:typ:hexvalue:tbl)
       intervals = a~b{,a~b} | -     (- = delete the whole series)
@@ -363,9 +363,14 @@ def parseChunk (s : String) : Option Chunk :=
     | [a, b] => do pure ((← parseInt? a), (← parseInt? b))
     | _ => none
 
-def parseSeries (s : String) : Option Series :=
+def parseKChunk (s : String) : Option KChunk :=
+  match s.toList with
+  | 'h' :: rest => do pure (true, ← parseChunk (String.ofList rest))
+  | _ => do pure (false, ← parseChunk s)
+
+def parseSeries (s : String) : Option KSeries :=
   match splitChar '/' s with
-  | l :: cs => do pure { labels := ← parseLSet l, chunks := ← cs.mapM parseChunk }
+  | l :: cs => do pure { labels := ← parseLSet l, chunks := ← cs.mapM parseKChunk }
   | _ => none
 
 def parseInterval (s : String) : Option Interval :=
@@ -381,9 +386,10 @@ def parseRequest (s : String) : Option Request :=
     pure { matchers := ms.map (fun m => ⟨m.name, m.pred⟩), intervals := ivs }
   | _ => none
 
-def showSeries (s : Series) : String :=
+def showSeries (s : KSeries) : String :=
   let l := joinWith "+" (s.labels.map fun p => hexS p.1 ++ "=" ++ hexS p.2)
-  "/".intercalate (l :: s.chunks.map fun c => joinWith "," (c.map fun x => s!"{x.1}.{x.2}"))
+  "/".intercalate (l :: s.chunks.map fun c =>
+    (if c.1 then "h" else "") ++ joinWith "," (c.2.map fun x => s!"{x.1}.{x.2}"))
 
 /-- does the chunk iterator skip a chunk emptied by several intervals (tied by the regenerated
     fact `rewriteEmptyChunkAction`, obligation `C48_empty_chunk_fact`) -/
@@ -391,7 +397,14 @@ def rwSkipEmpty : Bool := true
 
 def run (series reqs : String) : String :=
   match (listOf '|' series).mapM parseSeries, (listOf ';' reqs).mapM parseRequest with
-  | some b, some rs => joinWith "|" ((Rewrite.rewriteCode rwSkipEmpty rs b).map showSeries)
+  | some b, some rs =>
+    -- `rwSkipEmpty = true` is the code as it is; the encoding-aware loop is that code
+    if rwSkipEmpty then
+      match Rewrite.rewriteCodeK rs b with
+      | some out => joinWith "|" (out.map showSeries)
+      | none => "panic"
+    else joinWith "|" ((Rewrite.rewriteCode false rs (b.map (·.erase))).map fun s =>
+      showSeries { labels := s.labels, chunks := s.chunks.map fun c => (false, c) })
   | _, _ => "bad-op"
 
 end RW
